@@ -74,6 +74,10 @@ def run(rep):
     if res.distinct < 10000:
         raise vlib.ToolError("H2Send explored suspiciously little")
     sc = res.cases
+    # the same sender with a peer that may reset a stream at any time (ResetStopsPulling, Independent); no scripts from this run
+    rres = vlib.run_tlc(AREA, "H2Send", "MC_reset.cfg", rep.workdir, workers=6, timeout=900, xmx="8g")
+    vlib.tlc_ok(rres, "H2Send MC_reset.cfg")
+    rep.add_tlc("H2Send/MC_reset.cfg", rres, exhaustive=True)
     rep.cov["scripts_generated"] = len(sc)
     cap = 300 if quick else 4000
     sc = rnd.sample(sc, cap) if len(sc) > cap else sc
